@@ -1,5 +1,6 @@
 import UwgVerif.Drv.Proto
 import UwgVerif.Model.Conduction
+import UwgVerif.Model.SurfFlux
 open Uwg Uwg.Proto
 
 def mkLayers : List ℚ → List ℚ → List ℚ → List ℚ → List (Layer ℚ)
@@ -27,6 +28,31 @@ def stepC11 (line : String) : String :=
         | _, _, _, _ => []
       "ok " ++ fmtRatList (solve (mk la lb lc ly))
     | _, _, _, _ => "bad-args"
+  | "surfflux" =>
+    -- the whole Element.SurfFlux (composition B): v = [albedo; vegcoverage; grasscoverage; treecoverage;
+    -- solRec; infra; pres; deepTemp; vegAlbedo; grassFLat; treeFLat; waterDens; lv; dt; humRef; tempRef;
+    -- windRef; boundCond; intFlux]
+    match a.nat? "hor", a.nat? "road", a.nat? "m", a.nat? "s", a.nat? "e", a.rats? "v",
+          a.rats? "d", a.rats? "k", a.rats? "c", a.rats? "t" with
+    | some hor, some road, some m, some s, some e, some v, some d, some k, some c, some t =>
+      match v with
+      | [alb, vc, g, tr, solRec, infra, pres, deepT, va, gf, tf, wd, lv, dt, hum, tref, wind, bc, intF] =>
+        let el : SurfElement ℚ :=
+          { horizontal := hor == 1, albedo := alb, vegcoverage := vc,
+            roadCover := if road == 1 then some (g, tr) else none, solRec := solRec, infra := infra,
+            layers := mkLayers d k c t }
+        let ar : SurfArgs ℚ :=
+          { pres := pres, deepTemp := deepT, vegStart := s, vegEnd := e, vegAlbedo := va, grassFLat := gf,
+            treeFLat := tf, waterDens := wd, lv := lv, month := m, dt := dt, humRef := hum, tempRef := tref,
+            windRef := wind, boundCond := bc, intFlux := intF }
+        match surfFlux el ar with
+        | .ok r => "ok " ++ fmtRatList [r.aeroCond, r.solAbs, r.lat, r.sens, r.flux, r.tExt, r.tInt] ++ " " ++
+            fmtRatList r.layerTemp
+        | .error .zerodiv => "err zerodiv"
+        | .error .index => "err index"
+        | .error .fatal => "err fatal"
+      | _ => "bad-args"
+    | _, _, _, _, _, _, _, _, _, _ => "bad-args"
   | _ => "bad-op"
 
 def main : IO Unit := loop stepC11
